@@ -57,7 +57,7 @@ theorem C01_sync (p : Params) (hq : Sync.NoQuirks p) (h : List Op) :
 /-- Non-vacuity on the concurrent cache: un-synced burst, invalidate while the insert is
 still queued, re-insert, invalidate_all at the same and at a later clock reading. -/
 example : oracleC01 .sync (Sync.trace { cap := some 2 }
-    [.ins 1 10, .ins 2 20, .get 1, .inv 1, .get 1, .ins 1 11, .get 1, .adv 600000000, .ins 3 30,
+    [.ins 1 10, .ins 2 20, .get 1, .inv 1, .get 1, .ins 1 11, .get 1, .adv Gen.PAST_SYNC_INTERVAL_NS, .ins 3 30,
      .ins 4 40, .iter, .invAll, .get 3, .adv 1, .ins 3 31, .invAll, .get 3, .has 4, .sync, .iter])
     = true := by
   decide +kernel
